@@ -9,6 +9,8 @@ import (
 	"sync/atomic"
 	"time"
 
+	"golang.org/x/sys/unix"
+
 	gnet "github.com/panjf2000/gnet/v2"
 	"github.com/panjf2000/gnet/v2/pkg/vsys"
 	"github.com/panjf2000/gnet/v2/zzverif/vlib"
@@ -262,4 +264,85 @@ func runClientLifeCase(c cfg, seed uint64, nconn int, stopTwice bool, keys map[s
 	keys["client|stop|"+c.class()] = struct{}{}
 	res.Obs("client_connections", int64(len(conns)))
 	return evals
+}
+
+// runStartFailCase: a descriptor-creating call fails while the engine (or client) starts. Run/Start must report the
+// error, every descriptor created so far must be closed exactly once, and no descriptor of anybody else - in
+// particular 0, 1, 2 - may be touched.
+func runStartFailCase(c cfg, seed uint64, call int, k int64, client bool, keys map[string]struct{}) (reached bool) {
+	mon := newMonitor("startfail", hooks{})
+	vsys.ResetAlarms()
+	vsys.ResetLedger()
+	vsys.PlanClear()
+	defer vsys.PlanClear()
+	for fd := 0; fd <= 2; fd++ {
+		vsys.ForeignAdd(fd, "stdio")
+	}
+	defer func() {
+		for fd := 0; fd <= 2; fd++ {
+			vsys.ForeignDel(fd)
+		}
+	}()
+	vsys.PlanAdd(&vsys.Rule{Call: call, FD: -1, Index: k, Action: vsys.AErrno, Errno: unix.EMFILE, Once: true})
+	done := make(chan error, 1)
+	var cli *gnet.Client
+	go func() {
+		if client {
+			var err error
+			cli, err = gnet.NewClient(mon, c.options()...)
+			if err == nil {
+				err = cli.Start()
+			}
+			done <- err
+			return
+		}
+		done <- gnet.Run(mon, c.listenAddr(), c.options()...)
+	}()
+	what := "Run"
+	if client {
+		what = "Client.Start"
+	}
+	var err error
+	select {
+	case err = <-done:
+	case <-time.After(3 * time.Second):
+		if vsys.NFired() == 0 {
+			// the k-th call was never made: the engine is simply running; stop it
+			if client && cli != nil {
+				_ = cli.Stop()
+			} else if mon.life == nil {
+				// Run is serving: find the engine through OnBoot is not wired here; use the package-level Stop
+			}
+			res.Note("startfail: %s did not reach %s #%d", what, vsys.CallName(call), k)
+			// leave the engine to the process end; it holds no harness resources
+			return false
+		}
+		res.Violate("C19 "+what+" hangs after a failed "+vsys.CallName(call), fmt.Sprintf("%s #%d failed with EMFILE during start and %s has not returned 3s later", vsys.CallName(call), k, what), map[string]any{"config": c.String(), "dump": trimDump(vlib.NormalizeDump(vlib.GoroutineDump()))})
+		return true
+	}
+	if vsys.NFired() == 0 {
+		// started fine without making that call: shut down again
+		if client && cli != nil {
+			_ = cli.Stop()
+		}
+		return false
+	}
+	if err == nil {
+		res.Violate("C19 "+what+" reported success although "+vsys.CallName(call)+" failed", fmt.Sprintf("%s #%d failed with EMFILE during start", vsys.CallName(call), k), map[string]any{"config": c.String()})
+		if client && cli != nil {
+			_ = cli.Stop()
+		}
+	}
+	time.Sleep(2 * time.Millisecond)
+	for _, a := range vsys.Alarms() {
+		res.Violate(fmt.Sprintf("C07 %s op=%s site=%s history=failed-start", a.Kind, a.Op, a.Site), fmt.Sprintf("%s with %s #%d failing (EMFILE): %s on fd %d: %s", what, vsys.CallName(call), k, a.Kind, a.FD, a.Detail), map[string]any{"config": c.String(), "shim_log": vsys.LogTail(30)})
+	}
+	for _, fi := range vsys.Owned() {
+		if fi.Class == "adopted" || fdIdent(fi.FD) == "" {
+			continue
+		}
+		res.Violate(fmt.Sprintf("C07 leak class=%s site=%s history=failed-start", fi.Class, fi.Site), fmt.Sprintf("%s failed (%s #%d EMFILE) but descriptor %d (%s, created in %s) is still open", what, vsys.CallName(call), k, fi.FD, fi.Class, fi.Site), map[string]any{"config": c.String()})
+	}
+	keys[fmt.Sprintf("failed-start|%s|%s|k=%d", what, vsys.CallName(call), k)] = struct{}{}
+	return true
 }
